@@ -17,9 +17,31 @@ structure WF (i : Inst) : Prop where
   tech : 1 ≤ i.T
   last : ∀ j, 1 ≤ j → j ≤ i.n → i.skills j ≤ i.techs (i.T - 1)
 
+/-- `get_action_mask` / `_step` in the shape the proofs use (`maskRef`, `stepRef`).  They coincide with the
+model (`mask_eq`, `step_eq`) because the extracted source compares `current_tech == techs.size(-2) - 1`
+(`Params.svrpMaskLastCmp = eq`, `Params.svrpMaskLastOffset = 1`) and increments the technician with
+`(current_node == 0)` (`Params.svrpStepDepotCmp = eq`): a source edit of any of the three breaks these proofs. -/
+def maskRef (i : Inst) (s : State) (a : Nat) : Bool :=
+  if a = 0 then !((s.cur == 0 || s.tech == i.T - 1) && anyLoc i s) else locOk i s a
+
+def stepRef (_ : Inst) (s : State) (a : Nat) : State :=
+  { cur := a, tech := s.tech + (if a = 0 then 1 else 0), vis := upd s.vis a true }
+
+theorem mask_eq (i : Inst) (s : State) (a : Nat) : mask i s a = maskRef i s a := by
+  by_cases h : a = 0
+  · subst h
+    by_cases ht : s.tech = i.T - 1
+    · simp [mask, maskRef, Params.svrpMaskLastCmp, Params.svrpMaskLastOffset, Cmp.evalNat, ht]
+    · have hb : (s.tech == i.T - 1) = false := by simpa using ht
+      simp [mask, maskRef, Params.svrpMaskLastCmp, Params.svrpMaskLastOffset, Cmp.evalNat, ht, hb]
+  · simp [mask, maskRef, h]
+
+theorem step_eq (i : Inst) (s : State) (a : Nat) : step i s a = stepRef i s a := by
+  by_cases h : a = 0 <;> simp [step, stepRef, Params.svrpStepDepotCmp, Cmp.evalNat, h]
+
 theorem mask_customer {i : Inst} {s : State} {a : Nat} (h0 : a ≠ 0) (hm : mask i s a = true) :
     s.vis a = false ∧ i.skills a ≤ i.techs s.tech := by
-  simp only [mask, h0, if_false, locOk, Params.svrpMaskSkillCmp, Cmp.eval, Bool.and_eq_true,
+  simp only [mask_eq, maskRef, h0, if_false, locOk, Params.svrpMaskSkillCmp, Cmp.eval, Bool.and_eq_true,
     Bool.not_eq_true', decide_eq_true_eq] at hm
   exact hm
 
@@ -46,20 +68,20 @@ theorem visits_of_run (i : Inst) {s s' : State} {as : List Nat} (h : Run env i s
         have := hvis (by omega)
         simp [hv] at this
       · have : (step i s a).vis j = true := by
-          simp only [step, upd_apply]; split <;> simp [hv]
+          simp only [step_eq, stepRef, upd_apply]; split <;> simp [hv]
         exact ih2 j hj this hh
     · intro j hj
       rw [List.count_cons]
       by_cases hja : a = j
       · subst hja
-        have : (step i s a).vis a = true := by simp [step]
+        have : (step i s a).vis a = true := by simp [step_eq, stepRef]
         have := ih2 a hj this
         simp [List.count_eq_zero_of_not_mem this]
       · have := ih3 j hj
         simp [hja]; exact this
     · intro j
       rw [ih4 j]
-      simp only [step, upd_apply, List.mem_cons]
+      simp only [step_eq, stepRef, upd_apply, List.mem_cons]
       by_cases hja : j = a <;> simp [hja]
 
 /-- all customers visited -/
@@ -82,10 +104,10 @@ theorem techOk_step (i : Inst) (hw : WF i) (s : State) (a : Nat) (hi : TechOk i 
   · subst h0
     rcases hi with hlt | hall
     · by_cases hlast : s.tech + 1 < i.T
-      · left; simp [step, hlast]
+      · left; simp [step_eq, stepRef, hlast]
       · right
         have ht : s.tech = i.T - 1 := by omega
-        simp only [mask, if_true, Bool.not_eq_true', Bool.and_eq_false_iff, Bool.or_eq_false_iff,
+        simp only [mask_eq, maskRef, if_true, Bool.not_eq_true', Bool.and_eq_false_iff, Bool.or_eq_false_iff,
           beq_eq_false_iff_ne, ne_eq] at hm
         have hany : anyLoc i s = false := by
           rcases hm with h | h
@@ -100,20 +122,20 @@ theorem techOk_step (i : Inst) (hw : WF i) (s : State) (a : Nat) (hi : TechOk i 
           rcases hl with h | h
           · exact h
           · exact absurd hs h
-        simp only [step, upd_apply]
+        simp only [step_eq, stepRef, upd_apply]
         split <;> simp [hv]
     · right
       intro j h1 h2
       have := hall j h1 h2
-      simp only [step, upd_apply]
+      simp only [step_eq, stepRef, upd_apply]
       split <;> simp [this]
   · have hc := mask_customer h0 hm
     rcases hi with hlt | hall
-    · left; simp [step, h0, hlt]
+    · left; simp [step_eq, stepRef, h0, hlt]
     · right
       intro j h1 h2
       have := hall j h1 h2
-      simp only [step, upd_apply]
+      simp only [step_eq, stepRef, upd_apply]
       split <;> simp [this]
 
 /-- Skill part, generalised over the start state: the first (continuing) route is driven by the current
@@ -141,7 +163,7 @@ theorem skills_of_run (i : Inst) (hw : WF i) {s s' : State} {as : List Nat} (h :
       obtain ⟨e1, e2⟩ := hr; subst e1 e2
       refine ⟨by simp, by simp, ?_⟩
       rw [h1]
-      have htech : (step i s 0).tech = s.tech + 1 := by simp [step]
+      have htech : (step i s 0).tech = s.tech + 1 := by simp [step_eq, stepRef]
       rw [htech] at ih'
       obtain ⟨q1, q2, q3⟩ := ih'
       simp only [routesOk, routeOk, Bool.and_eq_true, Bool.or_eq_true, List.isEmpty_iff,
@@ -153,7 +175,7 @@ theorem skills_of_run (i : Inst) (hw : WF i) {s s' : State} {as : List Nat} (h :
     · simp only [routes, h0, if_false, h1, List.cons.injEq] at hr
       obtain ⟨e1, e2⟩ := hr; subst e1 e2
       have hc := mask_customer h0 hm
-      have htech : (step i s a).tech = s.tech := by simp [step, h0]
+      have htech : (step i s a).tech = s.tech := by simp [step_eq, stepRef, h0]
       rw [htech] at ih'
       obtain ⟨q1, q2, q3⟩ := ih'
       refine ⟨?_, fun _ => ?_, q3⟩
